@@ -354,6 +354,12 @@ def run(ctx):
         if isinstance(e, ast.BinOp) and isinstance(e.op, ast.Add):
             flat(e.left)
             flat(e.right)
+        elif isinstance(e, ast.BinOp) and isinstance(e.op, ast.Mod) and isinstance(e.left, ast.Constant) and \
+                isinstance(e.left.value, bytes) and e.left.value.startswith(b'%d') and b'%' not in e.left.value[2:]:
+            # b'%d:' % n  ==  b'%d' % n + b':'
+            parts.append(ast.BinOp(left=ast.Constant(value=b'%d'), op=ast.Mod(), right=e.right))
+            if e.left.value[2:]:
+                parts.append(ast.Constant(value=e.left.value[2:]))
         else:
             parts.append(e)
     if sent_vals:
